@@ -111,7 +111,7 @@ PROPS = {
             enum("Os", ["props/C15_enum.cpp", "shims/bf_table.c"], qs=4, ts=16, cflags=["-Os"], cxxflags=["-DVP_LIGHT"]),    # size-optimised builds define __OPTIMIZE_SIZE__ (what firmware is usually built with)
             enum("O3", ["props/C15_enum.cpp", "shims/bf_table.c"], qs=4, ts=16, cflags=["-O3"], cxxflags=["-DVP_LIGHT"]),   # the ABI of most embedded targets: plain char is unsigned   # accessors compiled without optimisation: locals live in (poisoned) stack slots
             enum("fast", ["props/C15_enum.cpp", "shims/bf_table.c"], qs=0, ts=16, lib="fast", cxxflags=["-DVP_FAST", "-O2"], cflags=["-O2"]),
-            enum("alias", ["props/C15_alias_enum.cpp", "shims/bf_alias.c"], qs=2, ts=4, lib="fast", cxxflags=["-O2"], cflags=["-O2", "-fstrict-aliasing"]),   # typed stores by the caller, optimised build without sanitizers
+            enum("alias", ["props/C15_alias_enum.cpp", "shims/bf_alias.c", "shims/bf_const.c"], qs=2, ts=4, lib="fast", cxxflags=["-O2"], cflags=["-O2", "-fstrict-aliasing"]),   # typed stores by the caller, optimised build without sanitizers
         ],
     ),
     "C12": dict(
